@@ -163,5 +163,8 @@ theorem json_duplicate_failure_leaks_nothing : type_of% @Cjet.Props.CjsonTree.du
 theorem json_duplicate_stops_at_first_failure : type_of% @Cjet.Props.CjsonTree.duplicate_stops_at_first_failure := @Cjet.Props.CjsonTree.duplicate_stops_at_first_failure
 theorem json_duplicate_is_faithful_copy : type_of% @Cjet.Props.CjsonTree.duplicate_is_faithful_copy := @Cjet.Props.CjsonTree.duplicate_is_faithful_copy
 theorem json_duplicate_children_ledger : type_of% @Cjet.Props.CjsonTree.duplicate_children_ledger := @Cjet.Props.CjsonTree.duplicate_children_ledger
+theorem json_add_member_failure_changes_nothing : type_of% @Cjet.Props.CjsonTree.add_member_failure_changes_nothing := @Cjet.Props.CjsonTree.add_member_failure_changes_nothing
+theorem json_add_member_attaches_last : type_of% @Cjet.Props.CjsonTree.add_member_attaches_last := @Cjet.Props.CjsonTree.add_member_attaches_last
+theorem json_add_member_conserves_blocks : type_of% @Cjet.Props.CjsonTree.add_member_conserves_blocks := @Cjet.Props.CjsonTree.add_member_conserves_blocks
 
 end Cjet.Props.C15
